@@ -202,3 +202,82 @@ Definition wf_fcall (f : fcall) : bool :=
   | Some ks => kinds_match ks (fc_fields f) && forallb wf_val (fc_fields f) && (fc_tag f <? M16)
                && (len (enc_vals (fc_fields f)) <? M32 - 16)
   end.
+
+(* ---------------- allocation requested by the decoder (C04) ----------------
+   The sum of the sizes the repository's code passes to make() on the path the
+   decoder takes for this input (16 bytes per string header, interface value
+   and Qid element).  Fixed-size scratch used inside encoding/binary is not
+   counted here; it is covered by the linear slack of the measured oracle. *)
+Definition alloc_str (bs : bytes) : N :=
+  match rd_int 2 bs with
+  | Ok (l, r) => if shorter r l then 0 else 2 * l    (* b := make([]byte, ll); string(b) *)
+  | _ => 0
+  end.
+
+Fixpoint alloc_many {A} (dec1 : bytes -> res (A * bytes)) (a1 : bytes -> N) (n : nat) (bs : bytes) : N :=
+  match n with
+  | O => 0
+  | S n' => a1 bs + match dec1 bs with Ok (_, r) => alloc_many dec1 a1 n' r | _ => 0 end
+  end.
+
+Definition alloc_fval (k : kind) (bs : bytes) : N :=
+  match k with
+  | KStr => alloc_str bs
+  | KData => match rd_int 4 bs with Ok (l, r) => if shorter r l then 0 else l | _ => 0 end
+  | KStrs => match rd_int 2 bs with
+             | Ok (l, r) => if shorter r (2 * l) then 0
+                            else 32 * l + alloc_many dec_str alloc_str (N.to_nat l) r
+             | _ => 0 end
+  | KQids => match rd_int 2 bs with
+             | Ok (l, r) => if shorter r (13 * l) then 0 else 32 * l
+             | _ => 0 end
+  | _ => 0
+  end.
+
+Fixpoint alloc_fvals (ks : list kind) (bs : bytes) : N :=
+  match ks with
+  | [] => 0
+  | k :: ks' => alloc_fval k bs + match dec_fval k bs with Ok (_, r) => alloc_fvals ks' r | _ => 0 end
+  end.
+
+Definition alloc_dir (bs : bytes) : N :=
+  match rd_int 2 bs with
+  | Ok (l, r) => if shorter r l then 0 else l + alloc_fvals (map snd spec_dir_fields) (take l r)
+  | _ => 0
+  end.
+
+Definition alloc_val (k : kind) (bs : bytes) : N :=
+  match k with KDir => alloc_dir bs | _ => alloc_fval k bs end.
+
+Fixpoint alloc_vals (ks : list kind) (bs : bytes) : N :=
+  match ks with
+  | [] => 0
+  | k :: ks' => alloc_val k bs + match dec_val k bs with Ok (_, r) => alloc_vals ks' r | _ => 0 end
+  end.
+
+Definition alloc_msg (ty : N) (ks : list kind) (bs : bytes) : N :=
+  if ty =? T_Rstat then match rd_int 2 bs with Ok (_, r) => alloc_vals ks r | _ => 0 end
+  else if ty =? T_Twstat then
+    match ks with
+    | k0 :: rest => alloc_val k0 bs +
+        match dec_val k0 bs with
+        | Ok (_, r) => match rd_int 2 r with Ok (_, r') => alloc_vals rest r' | _ => 0 end
+        | _ => 0 end
+    | [] => 0
+    end
+  else alloc_vals ks bs.
+
+Definition alloc_fcall (bs : bytes) : N :=
+  match rd_int 1 bs with
+  | Ok (t, r) => match rd_int 2 r with
+                 | Ok (_, r') => match kinds_of_type t with Some ks => alloc_msg t ks r' | None => 0 end
+                 | _ => 0 end
+  | _ => 0
+  end.
+
+(* DecodeDir: p := make([]byte, ll+2), then the *Dir case on p *)
+Definition alloc_decode_dir (bs : bytes) : N :=
+  match rd_int 2 bs with
+  | Ok (l, r) => if shorter r l then 0 else (l + 2) + alloc_dir (le 2 l ++ take l r)
+  | _ => 0
+  end.
